@@ -70,7 +70,11 @@ def gen_cases(tier, seed):
     for name, prog in sorted(_programs(tier).items()):
         cases = []
         paused_cases = []
-        items = [(idx, 'child' if kind == 'oldchild' else kind) for st in prog['steps'] for _k, idx, kind, _h in st['reg']]
+        items = []
+        for st in prog['steps']:
+            for _k, idx, kind, _h in st['reg']:
+                if idx not in [i for i, _kind in items]:  # (an item handed over under two keys is still one item with one outcome)
+                    items.append((idx, 'child' if kind == 'oldchild' else kind))
         ref = wcprog.run_case({'program': prog, 'plan': [], 'drain': True})
         nslots = ref['slots'] + 1
         poscache = {}
